@@ -77,7 +77,8 @@ RefCombine(nv, nw) == [ts |-> nv.ts \cup nw.ts, exp |-> nv.exp + nw.exp]
 (*  sharers = <<[kind, before, after]>>  every object sharing storage with *)
 (*            the receiver (a copy, a virtual view, a second owner ...)    *)
 (*  arrays  = <<[before, after]>>  raw bytes of every pre-existing array   *)
-(*  plain   = [exc, st, stw, stv, dq] result of the plain spelling          *)
+(*  plain   = [exc, st, stw, stv, dq, isrecv] result of the plain spelling  *)
+(*            (isrecv: the returned object IS the receiver)                *)
 (*            name or "", structural fingerprint (st: tensor by tensor,     *)
 (*            stw: what survives a change of gauge), distance to itself (0) *)
 (*  inpl    = [exc, st, dq, self, orig, arrays]  result of the in-place    *)
@@ -121,8 +122,14 @@ PermInvariant(r)    == \A p \in Range(r.perm) :
                           /\ p.same_in                      \* the re-stored receiver has the same labelled content
                           /\ r.randomised \/ AgreePerm(r, p)
 
+\* the plain spelling hands out a new object, never its receiver itself -- also when there is nothing to do
+\* (identity permutation, empty map, dtype already equal ...): a later in-place call on the result must not reach
+\* the receiver
+PlainReturnsNewObject(r) == r.plain.exc = "" => ~r.plain.isrecv
+
 CallClauses(r) ==
   << <<"PlainPure", PlainPure(r)>>,
+     <<"PlainReturnsNewObject", PlainReturnsNewObject(r)>>,
      <<"SharersUntouched", SharersUntouched(r)>>,
      <<"ArraysUntouched", ArraysUntouched(r)>>,
      <<"PlainIsInplaceOnCopy", PlainIsInplaceOnCopy(r)>>,
